@@ -52,7 +52,7 @@ def extra(binary, build, tier, rng):
         f = parse_ok(res)
         return None if f is None or f[0] == "none" else int(f[0])
     ps = []
-    for ln in ((2, 3, 5, 6, 7, 10, (1 << 32) + 1, 3 << 62) if tier == "quick" else (2, 3, 5, 6, 7, 9, 10, 11, 13, 60, 641, (1 << 32) - 1, (1 << 32) + 1, (1 << 40) + 3, 3 << 62, (1 << 63) + 1)):
+    for ln in ((2, 3, 5, 6, 7, 10, 65792, 100000, 250000, 1000003, (1 << 32) + 1, (1 << 36) + 12345, 3 << 62) if tier == "quick" else (2, 3, 5, 6, 7, 9, 10, 11, 13, 60, 641, 65537, 65792, 100000, 250000, 1000000, 1000003, 16777259, (1 << 32) - 1, (1 << 32) + 1, (1 << 36) + 12345, (1 << 40) + 3, 3 << 62, (1 << 63) + 1)):
         ps.append(("index(%d)" % ln, ln, 64, (lambda w, ln=ln: "index len=%d n=1 words=%d" % (ln, w)), pick, (lambda w1, w2, ln=ln: "index len=%d n=1 words=%d,%d" % (ln, w1, w2))))
     for n in (3, 5, 7):
         items = ",".join(map(str, range(n)))
